@@ -578,9 +578,9 @@ Section Opt.
   Qed.
 
   (** what a finished search has collected when the limit never moves (MaxResults <> 1) *)
-  Lemma final_set R0 L0 st' : o_max_results o <> 1 -> EI R0 L0 in_index st' -> incl R0 (s_results st') ->
-    (forall e, in_index e -> Done st' e) ->
-    forall r, In r (s_results st') <-> (In r R0 \/ exists e, in_index e /\ r = mkres e /\ less (edist e) L0 = true).
+  Lemma final_set (P : eid -> Prop) R0 L0 st' : o_max_results o <> 1 -> EI R0 L0 P st' -> incl R0 (s_results st') ->
+    (forall e, P e -> Done st' e) ->
+    forall r, In r (s_results st') <-> (In r R0 \/ exists e, P e /\ r = mkres e /\ less (edist e) L0 = true).
   Proof.
     intros K (S & _ & LN & _) Inc Dn r. split; [apply S|].
     intros [H|(e & Pe & -> & L)]; [apply Inc; exact H|].
@@ -647,7 +647,7 @@ Section Opt.
     split; [|split].
     - intros K. apply (sorted_set_eq D ops OK); try apply (sort_unique_sorted D ops OK).
       intros c. rewrite !(sort_unique_in D ops OK), <- !in_rev.
-      rewrite (final_set R0 L0 so K EIo Inco Dno), (final_set R0 L0 sb K EIb' (proj1 (proj2 Xb)) Dnb'). tauto.
+      rewrite (final_set in_index R0 L0 so K EIo Inco Dno), (final_set in_index R0 L0 sb K EIb' (proj1 (proj2 Xb)) Dnb'). tauto.
     - intros K R0nil ErrZero. rewrite !(truncate_k1 _ K).
       assert (R0e : R0 = []) by exact R0nil. rewrite R0e in *.
       destruct (s_results so) as [|ro lo] eqn:Ero; destruct (s_results sb) as [|rb lb] eqn:Erb.
